@@ -97,6 +97,7 @@ theorem stepEv_rel (c : Ctl) (e : Ev) (k : Nat) (o : Op) (h : c.getOp k = some o
       · exact ⟨o, h, Rel.refl o⟩
     · exact ⟨o, h, Rel.refl o⟩
   | sleep ms => exact ⟨o, h, Rel.refl o⟩
+  | influence => exact ofLe _ (le_touchRunning c)
 
 /-- **status_moves_only_along_validTrans** (and operators are immutable otherwise): in every run
     of the controller, from any state, every operator keeps its region, epoch, priority and steps, and
